@@ -96,7 +96,7 @@ def generate(repo: str) -> tuple[str, str]:
     if _split_of(sl.value if isinstance(sl, ast.Subscript) else sl, "_add_to_list") != "tag" or _neg_slice(sl, "_add_to_list", ("depth",)) != "depth":
         raise TranslateError("_add_to_list: truncation is not `tag.split('.')[:-depth]`")
     loops = [s for s in ifs[1].body if isinstance(s, ast.For)]
-    if len(ifs[1].body) != 1 or len(loops) != 1 or _src(loops[0].iter) != "list(self._token_values.keys())" or _src(loops[0].target) != "key":
+    if len(ifs[1].body) != 1 or len(loops) != 1 or _src(loops[0].iter) not in ("list(self._token_values.keys())", "list(self._token_values)") or _src(loops[0].target) != "key":
         raise TranslateError("_add_to_list: expected `for key in list(self._token_values.keys())` as the only statement under `if propagate`")
     body = loops[0].body
     if len(body) != 1 or not isinstance(body[0], ast.If):
